@@ -251,6 +251,17 @@ def check_proofs(pid, clean=False):
                     if a not in ALLOWED_AXIOMS and not any(a.endswith('.' + x.split('.')[-1]) and x.endswith(a) for x in ALLOWED_AXIOMS):
                         res['bad_axioms'].append(a)
         res['assumption_blocks'] = k
+    if ok and clean:
+        # thorough tier: re-check the compiled property file and everything it depends on with the independent checker
+        with Lock('coq'):
+            rc, cout = sh(['timeout', '1500', 'coqchk', '-o', '-silent', '-Q', '.', 'N2kV', 'N2kV.Props.Properties_%s' % pid], cwd=COQ, timeout=1600)
+        m = re.search(r'\* Axioms:(.*?)\* Constants/Inductives relying on type-in-type:(.*?)\* Constants/Inductives relying on unsafe \(co\)fixpoints:(.*?)\* Inductives whose positivity is assumed:(.*)', cout, flags=re.S)
+        res['coqchk'] = {'exit': rc, 'axioms': m.group(1).strip() if m else 'unparsed', 'type_in_type': m.group(2).strip() if m else '', 'unsafe_fix': m.group(3).strip() if m else '',
+                         'assumed_positivity': m.group(4).strip() if m else ''}
+        if rc != 0 or not m or any(res['coqchk'][k] != '<none>' for k in ('type_in_type', 'unsafe_fix', 'assumed_positivity')):
+            ok = False
+            res['built'] = False
+            res['first_error'] = 'coqchk: ' + cout[-600:]
     res['forbidden'] = scan_forbidden()
     res['obligations'] = len(names)
     good = ok and not res['bad_axioms'] and not res['forbidden'] and res.get('assumption_blocks', 0) >= len(names)
@@ -361,6 +372,8 @@ class Run:
         self.cov['checker_cmd'] = 'coq_makefile -f _CoqProject -o Makefile && make -k -j16 %s.vo  (coqc 8.16.1, full .vo, Print Assumptions parsed; source scanned for Admitted/Axiom/...)' % res['file'][4:-2]
         self.cov.setdefault('theorems', []).extend(res['theorems'])
         self.cov.setdefault('axioms_per_theorem', {}).update(res['axioms'])
+        if 'coqchk' in res:
+            self.cov['coqchk'] = res['coqchk']
         if res['discharged'] != res['obligations']:
             why = res.get('first_error') or ('bad axioms %s' % res['bad_axioms'] if res['bad_axioms'] else '') or ('forbidden words %s' % res['forbidden'] if res['forbidden'] else 'Print Assumptions output incomplete')
             self.broken.append('proof obligations of %s do not check: %s' % (res['file'], why))
